@@ -163,6 +163,7 @@ def run(b, ps, tier, seed):
         again = [y for y in type_findings(d2) if y[0] == kind] if d2["cls"] == "OK" else []
         if not again:
             small, again = t, [x]
+        E.keep_in_corpus(small)
         violations.append(C.Violation(
             "printing is ambiguous (%s) on case %s, queries Q%d / Q%d: %r" % (kind, i, again[0][1], again[0][2], again[0][3][:80]),
             {"property": PROP, "kind": kind, "pair": [again[0][1], again[0][2]], "printed": again[0][3], "input_text": small,
